@@ -274,6 +274,16 @@ func run(h hist) result {
 			if o.Bal == nil || a > *o.Bal {
 				viol("pour-exceeds-faucet-balance")
 			}
+			// the window the contract keeps for this client must have been restarted at exactly the instant
+			// the configured individual_reset (a Duration with nanoseconds) ran out, not earlier or later
+			un := &faucetsc.UserNode{ID: sender}
+			if err := ctx.GetTrieNode(un.GetKey(faucetsc.ADDRESS), un); err == nil && un.StartTime.Unix() != w.start {
+				setFail("window-reset-at-wrong-instant")
+			}
+		}
+		// ... and the same for the global window and global_reset
+		if g2 := readGlobal(ctx); g2.StartTime.Unix() != globalW.start {
+			setFail("window-reset-at-wrong-instant")
 		}
 	}
 	return res
@@ -357,6 +367,13 @@ func genCfg(r *vh.Rand, big bool) cfg {
 	}
 	c.IReset = int64(r.Range(1, 30)) * sec
 	c.GReset = c.IReset + int64(r.Range(0, 60))*sec
+	if r.Bool() { // reset periods with a fractional second: the window ends between two transaction times
+		c.IReset += r.Pick64([]int64{1, sec / 2, sec - 1, int64(r.Range(1, 999999999))})
+		c.GReset += r.Pick64([]int64{0, sec / 2, sec - 1, int64(r.Range(1, 999999999))})
+		if c.GReset < c.IReset {
+			c.GReset = c.IReset
+		}
+	}
 	if r.Chance(1, 10) {
 		c.GReset = c.IReset - int64(r.Range(1, 2))*sec/2 // shorter global window (invalid)
 	}
@@ -378,8 +395,18 @@ func genHist(r *vh.Rand) hist {
 		now = r.Pick64([]int64{0, 1, 1 << 33, 1 << 40})
 	}
 	n := r.Range(2, 30)
+	anchor := map[int]int64{} // the generator's idea of where each client's (3 = global) window started
 	for i := 0; i < n; i++ {
-		switch x := r.Intn(10); {
+		switch x := r.Intn(13); {
+		case x >= 10: // land within a second of the end of some window
+			k := r.Intn(4)
+			if a, ok := anchor[k]; ok {
+				per := cur.IReset
+				if k == 3 {
+					per = cur.GReset
+				}
+				now = a + per/sec + int64(r.Range(-1, 1))
+			}
 		case x < 6:
 			now += int64(r.Range(0, int(cur.IReset/sec/3)+1))
 		case x < 8:
@@ -395,6 +422,12 @@ func genHist(r *vh.Rand) hist {
 		switch x := r.Intn(20); {
 		case x < 15:
 			o := op{K: "pour", C: r.Intn(3), T: now}
+			if a, ok := anchor[o.C]; !ok || time.Duration(now-a)*time.Second >= time.Duration(cur.IReset) {
+				anchor[o.C] = now
+			}
+			if a, ok := anchor[3]; !ok || time.Duration(now-a)*time.Second >= time.Duration(cur.GReset) {
+				anchor[3] = now
+			}
 			vals := []uint64{0, 0, 1, cur.Pour - 1, cur.Pour, cur.Pour, cur.Pour + 1, cur.Max - 1, cur.Max, cur.Max + 1, cur.PLimit, 1<<64 - 1, 1 << 63}
 			o.V = r.PickU64(vals)
 			if !big && r.Chance(1, 3) {
@@ -442,13 +475,13 @@ func genHist(r *vh.Rand) hist {
 					v = nc.PLimit + uint64(r.Range(-1, 60))
 					nc.GLimit = v
 				case 4:
-					v = uint64(int64(r.Range(0, 30)) * sec)
+					v = uint64(int64(r.Range(0, 30))*sec + int64(r.Intn(2))*int64(r.Range(1, 999999999)))
 					if r.Chance(1, 5) {
 						v = uint64(sec - 1)
 					}
 					nc.IReset = int64(v)
 				default:
-					v = uint64(nc.IReset + int64(r.Range(-1, 60))*sec)
+					v = uint64(nc.IReset + int64(r.Range(-1, 60))*sec + int64(r.Intn(2))*int64(r.Range(1, 999999999)))
 					nc.GReset = int64(v)
 				}
 				if f < 4 && v >= 1000000000000000 { // keep decimal strings within float64's exact digits
@@ -490,7 +523,7 @@ func main() {
 	rep.Rule = "random histories of 2-30 requests (75% pour, 10% refill, 15% update-settings) by 3 clients on the real faucetsc.Execute; " +
 		"configurations small and mostly valid (1 in 8 invalid, 1 in 8 around 2^53/2^63/2^64/MaxTokenSupply), 1 in 4 created through InitConfig+viper; " +
 		"requested values 0, 1, pour±1, max±1, limit, 2^63, 2^64-1; balances around pour_amount, 0, absent; timestamps step around " +
-		"individual/global reset ±1 s and sometimes go back; plus directed edge histories. non-trivial = at least two pours succeeded, " +
+		"individual/global reset ±1 s, aim at the end of a running client/global window ±1 s, and sometimes go back; half of the reset periods have a fractional second; plus directed edge histories. non-trivial = at least two pours succeeded, " +
 		"one request was refused and a client window was reopened or a refill/update succeeded; distinct by full history"
 	cf := &vh.CasesFile{Imports: []string{"Base.Corr", "Model.Faucet", "Corr.Faucet"}, CaseType: "fc_case", CheckFn: "fc_check"}
 
@@ -553,6 +586,11 @@ func main() {
 			op{K: "pour", C: 2, T: 100 + d + 1, V: 10, Bal: u64p(1000)}, op{K: "pour", C: 1, T: 100 + d + 1, V: 10, Bal: u64p(1000)})
 		handle(hist{Cfg: plain, Note: fmt.Sprintf("window edge %d s", d), Ops: ops})
 	}
+	// a window of 10.5 s (global 20.25 s): transaction times are whole seconds, the window ends between 110 and 111
+	frac := cfg{Pour: 10, Max: 10, PLimit: 30, GLimit: 50, IReset: 10*sec + sec/2, GReset: 20*sec + sec/4}
+	handle(hist{Cfg: frac, Note: "fractional reset period", Ops: []op{{K: "pour", C: 0, T: 100, V: 0, Bal: u64p(1000)}, {K: "pour", C: 0, T: 105, V: 0, Bal: u64p(1000)},
+		{K: "pour", C: 0, T: 110, V: 0, Bal: u64p(1000)}, {K: "pour", C: 0, T: 110, V: 0, Bal: u64p(1000)}, {K: "pour", C: 0, T: 111, V: 0, Bal: u64p(1000)},
+		{K: "pour", C: 1, T: 120, V: 0, Bal: u64p(1000)}, {K: "pour", C: 1, T: 121, V: 0, Bal: u64p(1000)}}})
 	top := uint64(1<<64 - 1)
 	handle(hist{Cfg: cfg{Pour: top - 5, Max: top, PLimit: top, GLimit: top, IReset: sec, GReset: sec}, Note: "AddCoin overflow",
 		Ops: []op{{K: "pour", C: 0, T: 5, V: 0, Bal: u64p(top)}, {K: "pour", C: 0, T: 5, V: 0, Bal: u64p(top)}, {K: "pour", C: 1, T: 5, V: 3, Bal: u64p(top)},
